@@ -24,8 +24,10 @@ META = {
             'SecNode.shutdown_modules in virtual time, for several declaration orders and attachment access times; the '
             'recorded event order is validated by TLC against the automaton.',
     'note': 'Trusted: TLC, harness/detsched.py, the instrumented module classes (harness/lifeworld.py); MultiEvent is '
-            're-executed from its current source on the scheduler\'s Event. Dynamically scanned (Pinata) modules and '
-            'the start-event time-out path are not covered.',
+            're-executed from its current source on the scheduler\'s Event. Variants of every configuration: declaration orders, access time of '
+            'the attachments, other module names, attachments fixed by a subclass / declared optional, no module '
+            'exported; explicit configurations for dynamically scanned (Pinata) modules, shared poll threads, polls in '
+            'flight at shutdown and a first poll round that outlasts the start time-out.',
     'tech': 'TLA+ spec + TLC model checking; TLC-enumerated configurations executed on the real code; TLC trace '
             'validation (Trace_Lifecycle) with named deviations',
     'ref': 'DESIGN.md section 5 C15',
